@@ -1,9 +1,10 @@
 """C02 - jobs start only after everything they depend on has finished."""
-from checks.rt_common import run_rt, COMMON_ASSUMPTIONS
+from checks.rt_common import run_rt, orphan_runs, COMMON_ASSUMPTIONS
 
 
 def run(tier, replay=None):
     return run_rt("C02", tier, replay, "deps", COMMON_ASSUMPTIONS + [
         "Deps is the per-instance provenance relation of MroSem (argument data, disabling condition, map source, enclosing preflights); intra-fork order split < chunks < join",
         "adversarial schedules: every producer instance in turn is held back until nothing else can move, plus seeded random interleavings",
-    ], mc=("Sched", "Dyn", "Dis"))
+        "restart runs with surviving jobs: a job fails, mrp exits, the jobs that were running finish later under their old attempt; the restarted mrp must not take their notifications for the new attempts (split < chunks < join and dependencies are judged on the new attempts)",
+    ], mc=("Sched", "Dyn", "Dis"), extra=orphan_runs)
